@@ -263,7 +263,9 @@ MORE = {
     'C03': ' Added: kill points after every schema statement (CREATE TABLE / INDEX are '
            'committed one by one), --database-uri, and the resumed run may request no URL '
            'more often than an uninterrupted crawl nor any URL outside its set.',
-    'C05': ' Added: URLs of 1.2 and 5 KB (record header fields stay one line each).',
+    'C05': ' Added: URLs of 1.2 and 5 KB (record header fields stay one line each), media '
+           'types with every RFC 7231 token character and a 200-character subtype (C07: the '
+           'MIME column is the whole type/subtype).',
     'C06': ' Added: the first append of a --warc-append run (the constructor\'s warcinfo '
            'record) onto the records of an earlier run.',
     'C09': ' Added: whole crawls with a hostile robots.txt redirect (17 targets x 3 codes), '
